@@ -90,6 +90,12 @@ def build_pool(seed: int, tier: str):
     add("fail-branch", "*=0x008000\nlb_b:\n.ascii '" + "y" * 200 + "'\nbra lb_b\n", "high" if False else "low", entries=("mem",))
     add("fail-map-then-error", ".map identifier=1 bank_range=0x00, 0x3f addr_range=0x0000, 0xffff mask=0x10000\n*=0x008000\n.db undef_zz\n", "low", entries=("mem", "file_ips"))
     add("fail-missing-include", "*=0x008000\n.include 'nope.s'\n", "low", entries=("mem",))
+    # failures INSIDE an included file whose path other jobs include too
+    add("fail-parse-inside-include", "*=0x018000\n.include 'part.s'\n.dl lb_inc\n", "low", {"part.s": "lb_inc:\nlda #\n"}, entries=("mem", "file_ips"))
+    add("fail-scan-inside-include", "*=0x018000\n.include 'part.s'\n.dl lb_inc\n", "low", {"part.s": "lb_inc:\n.ascii 'abc\n"}, entries=("mem", "cli"))
+    add("fail-inside-nested-include", "*=0x018000\n.include 'outer.s'\n", "low", {"outer.s": ".db 1\n.include 'part.s'\n", "part.s": "lb_inc:\n$\n"}, entries=("mem",))
+    add("nested-include-user", "*=0x018000\n.include 'outer.s'\n.dl lb_inc\n", "low", {"outer.s": ".db 1\n.include 'part.s'\n", "part.s": "lb_inc:\n.db 7\n"}, entries=("mem", "file_sfc"))
+    add("fail-codegen-inside-include", "*=0x018000\n.include 'part.s'\n", "low", {"part.s": "lb_inc:\nm_nope_zz(1)\n"}, entries=("mem",))
     for j, job in enumerate(jobs):
         job["id"] = j
     return jobs
@@ -131,7 +137,7 @@ def custom_units(tier, seed):
     return [{"shard": s, "n": n, "tier": tier} for s in range(16)]
 
 
-SENSITIVE = {"custom-map-same-addresses-a", "custom-map-same-addresses-b", "custom-map", "incbin-user", "incbin-other-content", "ips-user", "ips-other-content", "probe-low", "probe-high", "probe-unmapped-in-low", "uses-shared-undefined", "uses-macro-undefined", "uses-scope-undefined", "if-on-shared", "text-without-table", "table-user", "table-user-2",
+SENSITIVE = {"nested-include-user", "custom-map-same-addresses-a", "custom-map-same-addresses-b", "custom-map", "incbin-user", "incbin-other-content", "ips-user", "ips-other-content", "probe-low", "probe-high", "probe-unmapped-in-low", "uses-shared-undefined", "uses-macro-undefined", "uses-scope-undefined", "if-on-shared", "text-without-table", "table-user", "table-user-2",
              "include-user", "include-other-content", "valid-generated"}
 
 
